@@ -112,18 +112,34 @@ def decode_both(dialect, text):
         out.append(("decoder", ("reject",)))
     except Exception as e:  # noqa: BLE001
         out.append(("decoder", ("bad", type(e).__name__)))
-    r = loaders.outcome(dialect, "T = %s\n" % text)
-    if r[0] == "ok":
-        items = list(r[1])
-        if len(items) == 1 and items[0][0] == "T":
-            v = items[0][1]
-            out.append(("loads", ("value", v) if isinstance(v, (dt.date, dt.time)) else ("nottemporal", v)))
+    for route, tmpl, pick in (("loads", "T = %s\n", lambda m: m["T"]),
+                              ("loads-in-sequence", "S = (1, %s)\nU = {%s}\nEND\n", None)):
+        if route == "loads-in-sequence":
+            if (sum(ord(c) for c in text) % 5) and not text.startswith(("23:59", "2001-01-01T")):
+                continue          # the sequence/set route on a fixed fifth of the texts (and two families fully)
+            r = loaders.outcome(dialect, tmpl % (text, text))
         else:
-            out.append(("loads", ("nottemporal", items)))
-    elif r[0] == "doc":
-        out.append(("loads", ("reject",)))
-    else:
-        out.append(("loads", ("bad", loaders.brief(r))))
+            r = loaders.outcome(dialect, tmpl % text)
+        if r[0] == "ok":
+            items = list(r[1])
+            try:
+                if route == "loads":
+                    ok = len(items) == 1 and items[0][0] == "T"
+                    v = items[0][1] if ok else items
+                else:
+                    s_, u_ = dict(items)["S"], dict(items)["U"]
+                    ok = isinstance(s_, list) and len(s_) == 2 and len(u_) == 1 and list(u_)[0] == s_[1]
+                    v = s_[1] if ok else items
+            except Exception:  # noqa: BLE001
+                ok, v = False, items
+            if ok:
+                out.append((route, ("value", v) if isinstance(v, (dt.date, dt.time)) else ("nottemporal", v)))
+            else:
+                out.append((route, ("nottemporal", v)))
+        elif r[0] == "doc":
+            out.append((route, ("reject",)))
+        else:
+            out.append((route, ("bad", loaders.brief(r))))
     return out
 
 
